@@ -1,6 +1,7 @@
 package managers
 
 import (
+	mqtt "github.com/eclipse/paho.mqtt.golang"
 	"github.com/orda-io/orda/client/pkg/context"
 	"github.com/orda-io/orda/client/pkg/model"
 )
@@ -9,4 +10,13 @@ import (
 // whose RPCs go to the given service client instead of a dialled connection.
 func NewSyncManagerWithService(ctx *context.ClientContext, client *model.Client, svc model.OrdaServiceClient) *SyncManager {
 	return &SyncManager{ctx: ctx, client: client, serviceClient: svc}
+}
+
+// NewSyncManagerWithServiceAndNotifier (verification overlay, add-only): as
+// above, plus the real NotifyManager around a caller-supplied mqtt.Client with
+// its notification loop running (what Connect does for realtime clients).
+func NewSyncManagerWithServiceAndNotifier(ctx *context.ClientContext, client *model.Client, svc model.OrdaServiceClient, mq mqtt.Client) *SyncManager {
+	nm := &NotifyManager{client: mq, ctx: ctx, channel: make(chan *notificationMsg)}
+	go nm.notificationLoop()
+	return &SyncManager{ctx: ctx, client: client, serviceClient: svc, notifyManager: nm}
 }
